@@ -1341,8 +1341,11 @@ class C11(Spec):
 class C09(ExpectSpec):
     level_text = ('Partial. Proved: C09_code_blocks_verbatim (the code and indented definitions of the generated table expand specials only), '
                   'C09_verbatim_is_escape (under such an expansion replaceInline is exactly escaping, whatever the content), '
-                  'C09_code_quotes_no_spans, C09_escape_only. That the fence/quote delimiters are found where intended (regex completeness) '
-                  'is decided by the escaped-content oracle and correspondence.')
+                  'C09_code_quotes_no_spans, C09_escape_only, C09_code_quote_verbatim (the inline code quote: for every pre / post over the plain '
+                  'alphabet and body over the plain alphabet plus the star, spans.render of pre`body`post is escape pre <code> escape body '
+                  '</code> escape post -- the delimiters are located with the exact regex semantics and a star inside the quote is not markup). '
+                  'That fences and indented blocks are found where intended, and content with other markup characters, are decided by the '
+                  'escaped-content oracle and correspondence.')
     rule = ('fenced blocks with adversarial content lines (every markup form) not equal to the fence, inline code with content from the '
             "property's domain, indented paragraphs; all 16 safe modes; expected = escaped content; non-trivial = content contains markup")
     cls_prefix = 'C09'
